@@ -10,7 +10,7 @@ PARTIAL = ("Proved per operation (refinement to list operations on the option's 
            "refuse) and the frame property at any depth: an update through one option reference leaves the option at every disjoint reference "
            "exactly as it was (lens_frame), so every by-path setter - successful or refused - touches the addressed option only (C09_api_frame): the "
            "store is a map from references to value sequences and each call is a point update. Sequences are compositions of these; that a path "
-           "names the reference the caller means is C11_resolve. The tie enumerates all sequences to depth 2/3 over 48 calls from two start states "
+           "names the reference the caller means is C11_resolve. The tie enumerates all sequences to depth 2/3 over 53 calls from two start states "
            "plus random sequences to length 40.")
 VARIANT = "asan"
 RULE = ("operation sequences over a finite alphabet of API calls and arguments (scalar/indexed setters, cfg_setlist/addlist, "
@@ -22,6 +22,7 @@ EXHAUSTIVE = {"quick": True, "thorough": True}
 
 SCHEMA = [Opt("i", "int", 0, 7), Opt("s", "str", 0, b"d"), Opt("b", "bool", 0, False), Opt("f", "float", 0, 1.5),
           Opt("l", "int", LIST, [b"1", b"2"]), Opt("e", "str", LIST, None), Opt("sl", "str", LIST, [b"x"]),
+          Opt("fl", "float", LIST, [b"1.5"]), Opt("bl", "bool", LIST, None),
           Opt("m", "sec", MULTI | TITLE, None, "-", [Opt("x", "int", 0, 3), Opt("xl", "int", LIST, [b"5"])]),
           Opt("u", "sec", MULTI | TITLE | NO_TITLE_DUPES, None, "-", [Opt("y", "str", 0, None)]),
           Opt("n", "sec", MULTI, None, "-", [Opt("z", "int", 0, 0)]),
@@ -34,7 +35,10 @@ OPS = [
     "SL 0 %s 4 5" % hx("l"), "SL 0 %s" % hx("l"), "AL 0 %s 8" % hx("l"), "AL 0 %s 8 9" % hx("l"), "AL 0 %s %s" % (hx("e"), hx("k")),
     "AL 0 %s %s" % (hx("sl"), hx("y")), "SL 0 %s 1" % hx("i"), "AL 0 %s 1" % hx("i"),
     "SM 0 %s %s %s" % (hx("l"), hx("3"), hx("4")), "SM 0 %s %s %s" % (hx("l"), hx("3"), hx("x")), "SM 0 %s %s" % (hx("i"), hx("11")),
-    "SM 0 %s %s" % (hx("s"), hx("multi")), "SO 0 %s %s" % (hx("l"), hx("21")), "SO 0 %s %s" % (hx("i"), hx("zz")), "SO 0 %s %s" % (hx("i"), hx("0x10")),
+    "SM 0 %s %s" % (hx("s"), hx("multi")),
+    # bulk set of the other value kinds: floats and booleans are converted from text one by one, too
+    "SM 0 %s %s %s" % (hx("fl"), hx("2.5"), hx("1e3")), "SM 0 %s %s %s" % (hx("fl"), hx("0.5"), hx("1.5x")),
+    "SM 0 %s %s %s" % (hx("bl"), hx("yes"), hx("Off")), "SM 0 %s %s %s" % (hx("bl"), hx("on"), hx("maybe")), "SM 0 %s %s" % (hx("b"), hx("TRUE")), "SO 0 %s %s" % (hx("l"), hx("21")), "SO 0 %s %s" % (hx("i"), hx("zz")), "SO 0 %s %s" % (hx("i"), hx("0x10")),
     "AT 0 %s %s" % (hx("m"), hx("a")), "AT 0 %s %s" % (hx("m"), hx("b")), "AT 0 %s %s" % (hx("u"), hx("a")), "AT 0 %s %s" % (hx("nosuch"), hx("a")),
     "RN 0 %s 0" % hx("m"), "RN 0 %s 1" % hx("m"), "RT 0 %s %s" % (hx("m"), hx("a")), "RT 0 %s %s" % (hx("u"), hx("zz")), "RS 0 %s" % hx("m=b"),
     "RS 0 %s" % hx("m=zz"), "RN 0 %s 0" % hx("one"), "RN 0 %s 0" % hx("i"), "RT 0 %s %s" % (hx("n"), hx("a")),
